@@ -176,5 +176,8 @@ def run(ctx):
     r1_r4_score_table(ctx, sym, model)
     r3_parse(ctx, sym, model)
     r5_unit_test_split(ctx, sym)
+    # the merge/finalize table above speaks about resolve() only if resolve() feeds every feedback through it
+    from .c01 import r3_r5_resolvers
+    r3_r5_resolvers(ctx, sym, ids=('R6', 'R7'), writers=False)
     ctx.assume("floating-point rounding of particular sums beyond the tabulated cells is not decided; Score.__str__'s "
                "integer rounding when a total is divided among unit tests is outside the statement")
